@@ -5153,3 +5153,100 @@ func sharedSendBufferIntact(c *an.Ctx, rule string, pkgPrefixes ...string) (exam
 	}
 	return examined
 }
+
+// sharedPutOfOwnedField: when what goes back to a pool is held in a field of
+// an object that outlives the call (the address of the field, the pointer or
+// slice stored in it, or a local copy of it), nothing in the function's own
+// control flow says that this happens once per object: the function can be
+// entered again for the same object (a second write to one UDP session after
+// the first one failed).  Such a Put has to be a test-and-clear: dominated by a
+// condition on the field and accompanied by a store that clears or replaces
+// the field.  Returns the number of such Puts examined.
+func sharedPutOfOwnedField(c *an.Ctx, rule string, prefixes ...string) (examined int) {
+	for _, fn := range c.AllFns {
+		if fn.Blocks == nil || c.IsTestFile(fn.Pos()) || !c.Prog.InRepo(fn) || !hasAnyPrefix(an.FnKey(fn), prefixes) {
+			continue
+		}
+		for _, call := range an.Calls(fn) {
+			if !isPoolPut(call) {
+				continue
+			}
+			args := call.Common().Args
+			v := args[len(args)-1]
+			if mi, ok := v.(*ssa.MakeInterface); ok {
+				v = mi.X
+			}
+			// which field of which longer-lived object does the value come from?
+			var fa *ssa.FieldAddr
+			switch x := v.(type) {
+			case *ssa.FieldAddr:
+				fa = x
+			case *ssa.UnOp:
+				if x.Op == token.MUL {
+					fa, _ = x.X.(*ssa.FieldAddr)
+				}
+			case *ssa.Alloc:
+				if st := an.SingleStore(x); st != nil {
+					if ld, ok := st.Val.(*ssa.UnOp); ok && ld.Op == token.MUL {
+						fa, _ = ld.X.(*ssa.FieldAddr)
+					}
+				}
+			}
+			if fa == nil {
+				continue
+			}
+			path, ok := an.AccessPath(fa)
+			if !ok {
+				continue
+			}
+			// a field of the pool's owner itself (l.buf) is not per-session state; the object must come in through a
+			// parameter other than the one the pool is reached through, or through a field of one
+			poolPath, _ := an.AccessPath(args[0])
+			root := func(p string) string {
+				if i := strings.Index(p, "."); i >= 0 {
+					return p[:i]
+				}
+				return p
+			}
+			if root(path) == root(poolPath) && strings.Count(path, ".") <= 1 {
+				continue
+			}
+			examined++
+			k := an.FnKey(fn)
+			c.Analysed(k)
+			typ, field, _, _ := an.FieldOf(fa)
+			key := fmt.Sprintf("%s returns %s.%s to its pool at most once per object", k, an.Short(typ), field)
+			// test: some condition that dominates the Put reads the same field
+			tested := false
+			for _, e := range an.DominatingConds(call.Block()) {
+				w := &an.Walker{P: c.Prog, NoFieldJoin: true, Opaque: func(*ssa.Function) bool { return true },
+					Visit: func(u ssa.Value) bool {
+						if ld, ok := u.(*ssa.UnOp); ok && ld.Op == token.MUL {
+							if p2, ok := an.AccessPath(ld.X); ok && p2 == path {
+								tested = true
+								return true
+							}
+						}
+						return false
+					}}
+				w.Walk(e.If.Cond)
+			}
+			// clear: the field is stored to in this function
+			cleared := false
+			an.Instrs(fn, func(in ssa.Instruction) {
+				if st, ok := in.(*ssa.Store); ok {
+					if p2, ok := an.AccessPath(st.Addr); ok && p2 == path {
+						if _, isFA := st.Addr.(*ssa.FieldAddr); isFA {
+							cleared = true
+						}
+					}
+				}
+			})
+			c.Check(tested && cleared, rule, key, call.Pos(),
+				"the Put is guarded by a test of the field and the field is replaced in the same function",
+				fmt.Sprintf("the pooled value lives in %s, which outlives this call, and the Put is %s: a second call for the same object (a second write to one session after the first failed) leaves the buffer in the pool twice and two later users share it",
+					path, map[bool]string{true: "guarded by a test of the field but the field is never cleared", false: "not guarded by a test of the field"}[tested]))
+		}
+	}
+	return examined
+}
